@@ -27,5 +27,5 @@ if ! git -C "$WT" apply "$SRC/patch.diff" 2>"$LOG/apply.err"; then echo "$ID $M:
 REPLAY=$(grep -o 'replay=[^ ]*' "$LOG/check.out" | head -1 | cut -d= -f2)
 [ -n "$REPLAY" ] && [ -f "$REPLAY" ] && cp "$REPLAY" "$LOG/replay.json"
 git -C /repo worktree remove --force "$WT" >/dev/null 2>&1; rm -rf "$WT"
-[ -z "$TAG" ] && [ "$SRC" != "$OUT" ] && { cp "$SRC/patch.diff" "$OUT/patch.diff"; cp "$DEMO" "$OUT/demo.py"; cp "$SRC/notes.md" "$OUT/notes.md" 2>/dev/null; }
+{ [ -z "$TAG" ] || [ -n "${EVAL_STORE:-}" ]; } && [ "$SRC" != "$OUT" ] && { cp "$SRC/patch.diff" "$OUT/patch.diff"; cp "$DEMO" "$OUT/demo.py"; cp "$SRC/notes.md" "$OUT/notes.md" 2>/dev/null; }
 echo "$ID $M: demo clean rc=$(cat $LOG/demo_clean.rc) patched rc=$(cat $LOG/demo_patched.rc); suite: $(cat $LOG/suite.out); check rc=$(cat $LOG/check.rc): $(grep -m1 VIOLATION $LOG/check.out)"
